@@ -312,3 +312,104 @@ theorem C30_schedule_refines (ops : List SOp) : ∃ acts, (ops.foldl Sched.op {}
 example : ([SOp.ext (.mk 1 (some 1)), .ext (.on 1 (.start 1)), .ext (.on 1 (.start 2)), .settle 5].foldl
     Sched.op {}).w.get 1 = some { limit := some 1, sem := some ⟨0, [(2, .pending)]⟩, holding := [1] } := by
   decide
+
+example : ([SOp.ext (.mk 1 (some 1)), .ext (.on 1 (.start 1)), .nstart 1 1 1 2, .settle 5, .nstart 1 1 1 2, .nstart 1 2 1 3,
+    .settle 5].foldl Sched.op {}).w.get 1 = some { limit := some 1, sem := some ⟨0, [(2, .pending)]⟩, holding := [1] } := by
+  decide
+
+/-! ## runs started from inside a step (nested starts) -/
+
+/-- **Nested starts add no behaviour.** Let runs also be started by code running inside a
+step of a run that is inside its limit (`NAct.nstart`; same instance or another one, enabled
+only while the starting run holds its slot).  Every state reachable that way is reachable by
+plain action lists: who calls `run()` makes no difference, so all theorems above apply. -/
+theorem C30_nested_start_refines (nacts : List NAct) : ∃ acts, execN nacts = exec acts := by
+  have : ∀ (nacts : List NAct) (w : World) (acts : List Act), w = exec acts →
+      ∃ acts', nacts.foldl World.nstepD w = exec acts' := by
+    intro nacts
+    induction nacts with
+    | nil => intro w acts h; exact ⟨acts, h⟩
+    | cons o nacts ih =>
+      intro w acts h
+      obtain ⟨bs, hbs⟩ := World.nstepD_refines w o
+      exact ih (w.nstepD o) (acts ++ bs) (by rw [hbs, h, exec_foldl])
+  exact this nacts {} [] rfl
+
+example : execN [.act (.mk 1 (some 1)), .act (.on 1 (.start 1)), .nstart 1 1 1 2, .act (.on 1 (.begin 1)),
+    .nstart 1 1 1 2, .nstart 1 2 1 3, .act (.on 1 (.begin 2))] =
+    exec [.mk 1 (some 1), .on 1 (.start 1), .on 1 (.begin 1), .on 1 (.start 2), .on 1 (.begin 2)] := by decide
+
+/-- **The bound with nested starts.** However runs are started — from top-level code or from
+inside steps of running runs of the same or of other instances — at most `n` runs of an
+instance are inside its limit. -/
+theorem C30_nested_bound (nacts : List NAct) (i : Nat) (x : Inst) (n : Nat)
+    (hx : (execN nacts).get i = some x) (hl : x.limit = some n) : x.holding.length ≤ n := by
+  obtain ⟨acts, h⟩ := C30_nested_start_refines nacts
+  rw [h] at hx
+  exact C30_bound acts i x n hx hl
+
+example : ∃ x, (execN [.act (.mk 1 (some 2)), .act (.on 1 (.start 1)), .act (.on 1 (.start 2)),
+    .act (.on 1 (.begin 1)), .act (.on 1 (.begin 2)), .nstart 1 1 1 3, .nstart 1 2 1 4,
+    .act (.on 1 (.begin 3)), .act (.on 1 (.begin 4))]).get 1 = some x ∧
+    x.limit = some 2 ∧ x.holding = [1, 2] ∧ x.waiters = [(3, .pending), (4, .pending)] := by
+  refine ⟨_, rfl, ?_⟩; decide
+
+/-- **A nested run is counted.** In any reachable state in which all `n` slots of instance `i`
+are taken (for instance by the very runs whose steps make the calls), a run of `i` started from
+inside a step — of a run of `i` itself or of any other instance — is an ordinary new task
+(`[(i, r)]` joins the ready queue), and when it is stepped it takes no slot: it queues as a
+pending waiter and the set of runs inside the limit is unchanged.  There is no way in for a
+run that depends on who started it. -/
+theorem C30_nested_start_counted (nacts : List NAct) (pi pr i r n : Nat) (x : Inst)
+    (w1 : World) (wk : List (Nat × Nat))
+    (hx : (execN nacts).get i = some x) (hl : x.limit = some n) (hfull : x.holding.length = n)
+    (hs : (execN nacts).nstart pi pr i r = some (w1, wk)) :
+    wk = [(i, r)] ∧ (∃ p, (execN nacts).get pi = some p ∧ pr ∈ p.holding) ∧
+    ∃ x2, (w1.stepD (.on i (.begin r))).get i = some x2 ∧ x2.holding = x.holding ∧
+      (r, Fut.pending) ∈ x2.waiters := by
+  obtain ⟨acts, hacts⟩ := C30_nested_start_refines nacts
+  refine ⟨?_, World.nstart_caller _ pi pr i r _ hs, ?_⟩
+  all_goals
+    have hstart := World.nstart_is_start _ pi pr i r _ hs
+    rw [hacts] at hstart hx
+    obtain ⟨x0, x', wk', hx0, hstep, hwk, hget⟩ := World.get_step_on _ w1 i (.start r) wk hstart
+    rw [hx] at hx0
+    cases hx0
+    simp only [Inst.step, Inst.start] at hstep
+    split at hstep
+    · cases hstep
+    rename_i hnid
+    simp only [Option.some.injEq, Prod.mk.injEq] at hstep
+    obtain ⟨hx', hwk'⟩ := hstep
+  · subst hwk'; simpa using hwk
+  · have hinv := exec_inv acts i x hx
+    have hnc : aget r x.created = none := by
+      apply aget_none_of_not_mem
+      intro hm
+      exact hnid (by simp [Inst.ids, hm])
+    have hc' : aget r x'.created = some false := by
+      rw [← hx']
+      simp [aget_append, hnc, aget]
+    have hl' : x'.limit = some n := by rw [← hx']; exact hl
+    refine ⟨x'.stepD (.begin r), ?_, ?_⟩
+    · rw [World.get_stepD_on]; simp [hget i]
+    · have hb : x'.step (.begin r) = some (x'.enter r n, []) := by
+        simp [Inst.step, Inst.begin, hc', hl']
+      simp only [Inst.stepD, hb]
+      have hsem : x'.sem = x.sem := by rw [← hx']
+      have hhold : x'.holding = x.holding := by rw [← hx']
+      cases hsx : x.sem with
+      | none =>
+        have h0 : x.holding = [] := hinv.idle n hl hsx
+        have hn0 : n = 0 := by rw [h0] at hfull; simpa using hfull.symm
+        subst hn0
+        simp [Inst.enter, hsem, hsx, hhold, Sem.fresh, Sem.locked, Inst.waiters]
+      | some s =>
+        have hcons := hinv.conserve n s hl hsx
+        have hv : s.value = 0 := by omega
+        simp [Inst.enter, hsem, hsx, hhold, Sem.locked, hv, Inst.waiters]
+
+example : ∃ w1 wk, (execN [.act (.mk 1 (some 1)), .act (.on 1 (.start 1)), .act (.on 1 (.begin 1))]).nstart 1 1 1 2
+    = some (w1, wk) ∧ (w1.stepD (.on 1 (.begin 2))).get 1 =
+      some { limit := some 1, sem := some ⟨0, [(2, .pending)]⟩, holding := [1] } := by
+  refine ⟨_, _, rfl, ?_⟩; decide
